@@ -208,7 +208,7 @@ where
                 Priority::Min => {
                     let mut queue = BinaryHeap::new();
                     queue.push(Reverse(self.root.clone()));
-                    match self.loop_outbound_min(&mut edges, &mut visited, &mut queue) {
+                    match self.loop_inbound_min(&mut edges, &mut visited, &mut queue) {
                         true => Some(Path::from_edge_tree(edges)),
                         false => None,
                     }
@@ -216,7 +216,7 @@ where
                 Priority::Max => {
                     let mut queue = BinaryHeap::new();
                     queue.push(self.root.clone());
-                    match self.loop_outbound_max(&mut edges, &mut visited, &mut queue) {
+                    match self.loop_inbound_max(&mut edges, &mut visited, &mut queue) {
                         true => Some(Path::from_edge_tree(edges)),
                         false => None,
                     }
